@@ -258,15 +258,23 @@ def run_history_check(prop, tier, mode, runs, cat, budget_s, design_ref, assumpt
         if handled > 6:
             continue
         ok, replay = gate(hr, prop, mode, u, rec, d, seed)
+        if not ok and d.get("step") != "universe-compare":
+            # other members of the class may reproduce on their own where the first one needs the worker's past
+            for u2, rec2, d2 in lst[1:3]:
+                ok, replay = gate(hr, prop, mode, u2, rec2, d2, seed)
+                if ok:
+                    u, rec, d = u2, rec2, d2
+                    break
         if not ok and d.get("step") == "universe-compare":
             # garbage-dependence that does not recur in a fresh process pair (a wild read that picked up
             # process-specific bytes): recorded, not reported -- neither a violation nor an infrastructure error
             agg["other"]["unstable_universe_difference:%s[%s]" % (d["class"], d["dict_kind"])] += 1
             handled -= 1
             continue
-        if not ok and rec.get("verdict") == "died" and rec.get("proc_first") is not None and rec["proc_first"] < rec["run"]:
-            # the death may depend on what the same worker process executed before (heap layout): replay the
-            # process from its first history on, in the same universe; still one seed, one exact execution
+        if not ok and rec.get("verdict") in ("died", "violation") and rec.get("proc_first") is not None and rec["proc_first"] < rec["run"]:
+            # the death (or the wrong answer: state the library keeps across objects, C14) may depend on what the same
+            # worker process executed before: replay the process from its first history on, in the same universe;
+            # still one seed, one exact execution
             ok, replay = gate_prefix(hr, prop, mode, u, rec, d, seed)
         if not ok:
             unrepro.append({"run": rec["run"], "class": d["class"], "kind": d["dict_kind"], "step": d.get("step"), "universe": u, "process_first_run": rec.get("proc_first"),
@@ -461,6 +469,9 @@ def _prefix_outcome(rc, recs, out, err, run):
     for r in recs:
         if "run" in r and "verdict" in r:
             done.add(r["run"])
+    for r in recs:
+        if r.get("run") == run and r.get("verdict") == "violation":
+            return r.get("class")
     if rc == 0 or last_begin != run or run in done:
         return None
     return death_desc({"stderr": S._clip(err), "exit": rc})["class"]
@@ -476,7 +487,7 @@ def gate_prefix(hr, prop, mode, u, rec, d, seed):
               "process_prefix": {"first": first, "count": count},
               "universe": {"index": u, "malloc_fill": UNIVERSES[u][0], "free_fill": UNIVERSES[u][1]},
               "expect": {"class": d["class"], "kind": d["dict_kind"], "step": d.get("step")},
-              "history": rec.get("spec"), "detail": "recurs only when the worker process first executes histories %d..%d (heap layout)" % (first, rec["run"] - 1),
+              "history": rec.get("spec"), "detail": "recurs only when the worker process first executes histories %d..%d (state of the process: heap layout, or what the library keeps across objects); %s" % (first, rec["run"] - 1, (rec.get("detail") or "")[:300]),
               "stderr_excerpt": S.symbolize_report(S._clip(err))[-2500:]}
     return True, replay
 
